@@ -367,6 +367,116 @@ func runTS(line []byte, rec *recorder) {
 			finishPacket(p, r, r.pick(0, 1, 2, 3, r.intn(100)))
 			vec("random", p)
 		}
+	case "stream":
+		// histories: the packets go through one Muxer between WriteTables / WriteData calls, and come back through one Demuxer
+		// whose PacketSkipper drops some of them (what is returned for a packet may not depend on its neighbours)
+		for rep := 0; rep < sc.N; rep++ {
+			w2 := &recWriter{}
+			m2 := astits.NewMuxer(context.Background(), w2, astits.MuxerOptTablesRetransmitPeriod(r.pick(1, 3)))
+			m2.AddElementaryStream(astits.PMTElementaryStream{ElementaryPID: 0x100, StreamType: astits.StreamTypeH264Video})
+			m2.SetPCRPID(0x100)
+			pids := []int{0x100, 0x101, 0x21, 0x1ffe}
+			var pkts []*astits.Packet
+			var evs []M
+			var stream []byte
+			ok := true
+			for i, n := 0, r.rangeInt(8, 30); i < n; i++ {
+				switch r.intn(5) {
+				case 0:
+					m2.WriteTables()
+				case 1:
+					m2.WriteData(&astits.MuxerData{PID: 0x100, AdaptationField: buildAF(muxAFClasses[r.intn(len(muxAFClasses))], r),
+						PES: &astits.PESData{Header: buildPESHeader(muxHdrClasses[r.intn(len(muxHdrClasses))], 0, r), Data: r.bytes(r.pick(1, 100, 184, 400))}})
+				}
+				h := hdr()
+				h.PID = uint16(pids[r.intn(len(pids))])
+				afc := r.pick(1, 1, 3, 3, 2)
+				h.HasPayload, h.HasAdaptationField = afc&1 != 0, afc&2 != 0
+				p := &astits.Packet{Header: h}
+				if h.HasAdaptationField {
+					p.AdaptationField = randAF(r, r.intn(32), r.intn(8))
+				}
+				finishPacket(p, r, r.pick(0, 1, 2, 3, r.intn(100)))
+				v := projTSPacket(p, false)
+				before := w2.buf.Len()
+				var wn int
+				var err error
+				if pn := safeCall(func() { wn, err = m2.WritePacket(p) }); pn != nil {
+					err = fmt.Errorf("panic: %v", pn)
+				}
+				wb := append([]byte(nil), w2.buf.Bytes()[before:]...)
+				evs = append(evs, M{"ev": "vec", "class": "history", "v": v, "wb": ints(wb), "wn": wn, "werr": errStr(err), "got": M{}, "perr": "none", "rb": []int{}, "rerr": "none"})
+				pkts = append(pkts, p)
+				if err != nil || len(wb) != 188 {
+					ok = false
+				}
+				stream = append(stream, wb...)
+			}
+			want, got := 0, 0
+			if ok {
+				kind, arg := r.intn(4), r.intn(4)
+				skip := func(q *astits.Packet) bool {
+					switch kind {
+					case 0:
+						return int(q.Header.PID) == pids[arg]
+					case 1:
+						return q.Header.HasAdaptationField
+					case 2:
+						return q.AdaptationField != nil && q.AdaptationField.HasPCR
+					}
+					return int(q.Header.ContinuityCounter)%4 == arg
+				}
+				var kept []int
+				for i, p := range pkts {
+					pv := *p
+					if !p.Header.HasAdaptationField {
+						pv.AdaptationField = nil
+					}
+					if !skip(&pv) {
+						kept = append(kept, i)
+					}
+				}
+				want = len(kept)
+				dmx := astits.NewDemuxer(context.Background(), bytes.NewReader(stream), astits.DemuxerOptPacketSize(188), astits.DemuxerOptPacketSkipper(skip))
+				m3 := astits.NewMuxer(context.Background(), &recWriter{})
+				for {
+					var q *astits.Packet
+					var perr error
+					if pn := safeCall(func() { q, perr = dmx.NextPacket() }); pn != nil {
+						perr = fmt.Errorf("panic: %v", pn)
+					}
+					if perr != nil {
+						break
+					}
+					if got < len(kept) {
+						e := evs[kept[got]]
+						e["class"], e["perr"], e["got"] = "history-skipper", "nil", projTSPacket(q, true)
+						w3 := &recWriter{}
+						m3 = astits.NewMuxer(context.Background(), w3)
+						var rerr error
+						if pn := safeCall(func() { _, rerr = m3.WritePacket(q) }); pn != nil {
+							rerr = fmt.Errorf("panic: %v", pn)
+						}
+						e["rb"], e["rerr"] = ints(w3.buf.Bytes()), errStr(rerr)
+					}
+					got++
+				}
+				_ = m3
+				for i := range evs {
+					if evs[i]["class"] == "history" { // dropped by the skipper: the write direction only
+						evs[i]["ev"] = "wvec"
+					}
+				}
+			} else {
+				for i := range evs {
+					evs[i]["ev"] = "wvec"
+				}
+			}
+			for _, e := range evs {
+				rec.ev(e)
+			}
+			rec.ev(M{"ev": "sdone", "class": "history-skipper", "ok": ok, "want": want, "got": got})
+		}
 	default:
 		fatal("unknown ts part %q", sc.Part)
 	}
